@@ -605,6 +605,16 @@ func (h *simHandler) LeafPing(fctx frugal.FContext, s string) (string, error) {
 	}
 	return p.ret.(string), nil
 }
+func (h *simHandler) Lookup(fctx frugal.FContext, key string) (string, error) {
+	p, err := h.enter(fctx, "Lookup", key)
+	if err != nil {
+		return "", err
+	}
+	if p.outcome == "ex1" {
+		return "", p.ret.(*simsvc.NotFound)
+	}
+	return p.ret.(string), nil
+}
 func (h *simHandler) Shapes2(fctx frugal.FContext, d *simsvc.Deepish) (*simsvc.Deepish, error) {
 	p, err := h.enter(fctx, "shapes2", d)
 	if err != nil {
@@ -728,6 +738,8 @@ func (env *e2eEnv) invoke(p *callPlan) {
 		p.gotRet, p.gotErr = c.Mixed(ctx, p.args[0].(*simsvc.Mixed))
 	case "URLFor":
 		p.gotRet, p.gotErr = c.URLFor(ctx, p.args[0].(string), p.args[1].(int32))
+	case "Lookup":
+		p.gotRet, p.gotErr = c.Lookup(ctx, p.args[0].(string))
 	case "shapes":
 		a := p.args
 		p.gotRet, p.gotErr = c.Shapes(ctx, a[0].(simsvc.Deep), a[1].(*simsvc.Odd), a[2].(simsvc.Paint), a[3].(int16), a[4].(int8), a[5].(float64), a[6].(string), a[7].(string), a[8].([][]byte), a[9].(map[simsvc.Paint]string), a[10].(*simsvc.Choice))
